@@ -775,8 +775,8 @@ func (d *GroupExpression) Type() *Type {
 }
 
 func (d *GroupExpression) infer() {
-	if d.Type() == EMPTY_ARRAY {
-		d.Expr.(inferrer).infer()
+	if inf, ok := d.Expr.(inferrer); ok {
+		inf.infer()
 	}
 }
 
@@ -1128,6 +1128,9 @@ func wrapAny(val Node, targetType *Type) Node {
 		if inf, ok := val.(inferrer); ok {
 			inf.infer()
 		}
+		if t := val.Type().infer(); !t.Equals(val.Type()) {
+			val = wrapAny(val, t) // untyped empty literal inside a slice, index, field or group expression
+		}
 		return &Any{token: val.Token(), Value: val}
 	}
 	if targetType == GENERIC_ARRAY || targetType == GENERIC_MAP { // generic builtins
@@ -1149,7 +1152,7 @@ func wrapAny(val Node, targetType *Type) Node {
 			v.Expr = wrapAny(v.Expr, targetType)
 			return v
 		}
-		panic(fmt.Sprintf("internal error: untyped array: %s incompatible types: target %v, value %v", val.Token().Location(), targetType, valType))
+		// slice, index and field expressions on literals are converted below
 	}
 	if valType == EMPTY_MAP {
 		switch v := val.(type) {
@@ -1160,7 +1163,7 @@ func wrapAny(val Node, targetType *Type) Node {
 			v.Expr = wrapAny(v.Expr, targetType)
 			return v
 		}
-		panic(fmt.Sprintf("internal error: untyped map: %s incompatible types: target %v, value %v", val.Token().Location(), targetType, valType))
+		// index and field expressions on literals are converted below
 	}
 
 	arrayLit, ok := val.(*ArrayLiteral)
